@@ -23,7 +23,7 @@ type Case struct {
 	Usage  uint32 `json:"usage"`
 	Plain  string `json:"plain"`
 	Conf   string `json:"confounder"`
-	Tamper string `json:"tamper"` // none bitflip truncate append swap usage key etype
+	Tamper string `json:"tamper"` // none bitflip truncate append insert delete swap usage key key-inplace etype
 	A      int    `json:"a"`      // bit index | new length | first block | other usage | other etype
 	B      int    `json:"b"`      // second block | block size
 	Extra  string `json:"extra"`  // appended bytes | other key
@@ -64,6 +64,17 @@ func eval(c Case) (v evid.Verdict, trivial bool) {
 	case "append":
 		x, _ := hex.DecodeString(c.Extra)
 		pres = append(pres, x...)
+	case "insert": // octets inserted at an offset (anywhere, e.g. directly in front of the integrity tag)
+		x, _ := hex.DecodeString(c.Extra)
+		if c.A > len(pres) {
+			return evid.Pass(), true
+		}
+		pres = append(append(append([]byte{}, pres[:c.A]...), x...), pres[c.A:]...)
+	case "delete": // B octets removed at an offset
+		if c.A+c.B > len(pres) || c.B == 0 {
+			return evid.Pass(), true
+		}
+		pres = append(append([]byte{}, pres[:c.A]...), pres[c.A+c.B:]...)
 	case "swap":
 		bs := c.B
 		i, j := c.A*bs, (c.A+1)*bs
@@ -99,6 +110,13 @@ func eval(c Case) (v evid.Verdict, trivial bool) {
 		return evid.Pass(), true
 	}
 	ek := types.EncryptionKey{KeyType: et, KeyValue: key}
+	presBefore, keyBefore := append([]byte{}, pres...), append([]byte{}, key...)
+	defer func() {
+		// whatever the verdict on the message, the caller's ciphertext and key are the caller's
+		if v.OK && (!bytes.Equal(pres, presBefore) || !bytes.Equal(key, keyBefore)) {
+			v = evid.Fail(fmt.Sprintf("input-modified:etype%d", c.EType), "DecryptMessage changed the ciphertext or key buffer it was given (%s presentation): ciphertext %x -> %x", c.Tamper, presBefore, pres)
+		}
+	}()
 	got, err := crypto.DecryptMessage(pres, ek, usage)
 	e, eerr := crypto.GetEtype(et)
 	var got2 []byte
@@ -174,8 +192,20 @@ func TestProp(t *testing.T) {
 		c.Plain = hex.EncodeToString(kgen.Bytes(t, "plain", n))
 		c.Conf = hex.EncodeToString(kgen.Bytes(t, "conf", ref.ConfounderLen(et)))
 		clen := ref.EncryptedLen(et, n)
-		c.Tamper = rapid.SampledFrom([]string{"bitflip", "truncate", "append", "swap", "usage", "key", "key-inplace", "etype", "none"}).Draw(t, "tamper")
+		c.Tamper = rapid.SampledFrom([]string{"bitflip", "truncate", "append", "insert", "delete", "swap", "usage", "key", "key-inplace", "etype", "none"}).Draw(t, "tamper")
 		switch c.Tamper {
+		case "insert":
+			c.A = rapid.IntRange(0, clen).Draw(t, "at")
+			if rapid.Bool().Draw(t, "before-tag") {
+				c.A = clen - ref.MACLen(et) // directly in front of the integrity tag (rc4: behind it)
+				if et == ref.RC4 {
+					c.A = ref.MACLen(et)
+				}
+			}
+			c.Extra = hex.EncodeToString(rapid.SliceOfN(rapid.Byte(), 1, 17).Draw(t, "extra"))
+		case "delete":
+			c.A = rapid.IntRange(0, clen-1).Draw(t, "at")
+			c.B = rapid.IntRange(1, 17).Draw(t, "count")
 		case "bitflip":
 			c.A = rapid.IntRange(0, clen*8-1).Draw(t, "bit")
 		case "truncate":
@@ -229,7 +259,7 @@ func TestProp(t *testing.T) {
 		}
 	}
 	r.Extra("enumerated_plaintext_lengths", lens)
-	r.Rule(fmt.Sprintf("enum: for each etype x plaintext length in %v: every single-bit flip of the whole ciphertext, every truncation, 1..17 appended bytes, every adjacent block swap, every other usage, an unrelated key, every equal-key-length etype", lens))
+	r.Rule(fmt.Sprintf("enum: for each etype x plaintext length in %v: every single-bit flip of the whole ciphertext, every truncation, 1..17 appended bytes, 1/7/8/16 octets inserted or deleted at every offset, every adjacent block swap, every other usage, an unrelated key, every equal-key-length etype", lens))
 	type job struct {
 		et int32
 		n  int
@@ -255,6 +285,16 @@ func TestProp(t *testing.T) {
 			c = base
 			c.Tamper, c.A = "bitflip", b
 			judge("enum", c, nil)
+		}
+		for at := 0; at <= clen; at++ {
+			for _, n := range []int{1, 7, 8, 16} {
+				c = base
+				c.Tamper, c.A, c.Extra = "insert", at, hex.EncodeToString(kgen.DetBytes(r.Seed(), fmt.Sprintf("%s/ins/%d/%d", lbl, at, n), n))
+				judge("enum", c, nil)
+				c = base
+				c.Tamper, c.A, c.B = "delete", at, n
+				judge("enum", c, nil)
+			}
 		}
 		for l := 0; l < clen; l++ {
 			c = base
